@@ -488,6 +488,13 @@ class BinaryExpression(MathExpression):
             )
             if parent_side == "left" and self_muldiv and parent_muldiv:
                 return True
+            # a / (b * c) and a / (b / c) keep their grouping
+            if (
+                parent_side == "right"
+                and self_muldiv
+                and isinstance(self.parent, DivideExpression)
+            ):
+                return True
         return False
 
     def __str__(self) -> str:
